@@ -154,6 +154,7 @@ class Renderer:
         """edits for sub-directives shared by fn/block: loop, before, after, subst, dropstmt + built-in R1."""
         edits = []
         loops_box = [None]
+        self._cur_subs = subs
         for sd in subs:
             try:
                 self._apply_sub(s, lo, hi, sd, label, edits, loops_box)
@@ -233,6 +234,13 @@ class Renderer:
                 if bend < 0:
                     raise ExtractError('%s: cannot delimit closure body after %r' % (label, anchor))
                 body = s.text[bstart:bend].strip()
+                # substitutions declared for this item also apply inside the kept closure body (edits inside a replaced range are void)
+                for sd2 in getattr(self, '_cur_subs', []):
+                    if sd2['kind'] == 'subst':
+                        o2, r2 = parse_quoted(sd2['arg'])
+                        n2, _ = parse_quoted(r2.strip()[2:])
+                        if o2 in body:
+                            body = body.replace(o2, n2)
                 typed = '|%s| -> (%s)\n%s\n{ %s }' % (mm.group(3), mm.group(4), content, body)
                 if mm.group(2):
                     ls = s.text.rfind('\n', lo, hits[0]) + 1
